@@ -449,7 +449,7 @@ template<class T> constexpr T spice(T*t) {return *t;}
 #define rCOptionCb_(getcode, setcode) { \
             if(!strcmp("", args)) {\
                 data.reply(loc, "i", static_cast<int>(getcode)); \
-            } else if(!strcmp("s", args) || !strcmp("S", args)) { \
+            } else if(args[0] == 's' || args[0] == 'S') { \
                 int var = \
                     enum_key(prop, rtosc_argument(msg, 0).s); \
                 /* make sure we have no out-of-bound options */ \
@@ -465,7 +465,7 @@ template<class T> constexpr T spice(T*t) {return *t;}
                     rtosc_argument(msg, 0).i; \
                 rLIMIT(var, atoi) \
                 rCAPPLY(getcode, i, setcode) \
-                data.broadcast(loc, rtosc_argument_string(msg), getcode);\
+                data.broadcast(loc, args[0] == 'c' ? "c" : "i", getcode);\
                 rChangeCb; \
             } \
         }
